@@ -226,6 +226,37 @@ def worker(shard):
         check_valid(mido, 'end_of_track', {}, acc)
         for t in rm.TABLE:
             check_valid(mido, t, {}, acc)      # defaults
+        # the variable-length-quantity helpers the codec is built on (if the
+        # module still has them): correct, inverse, and not poisoned by a
+        # caller changing what they return or pass in
+        import mido.midifiles.meta as meta
+        enc = getattr(meta, 'encode_variable_int', None)
+        dec = getattr(meta, 'decode_variable_int', None)
+        if enc is not None and dec is not None:
+            for n in (0, 1, 127, 128, 129, 200, 255, 256, 16383, 16384, 16385,
+                      2097151, 2097152, 0x0FFFFFFF):
+                for rnd in range(2):
+                    acc.evals += 1
+                    v = enc(n)
+                    if list(v) != rm.vlq(n):
+                        acc.violation('vlq-helper/encode',
+                                      f'encode_variable_int({n}) = {list(v)} '
+                                      f'(round {rnd}), reference {rm.vlq(n)}',
+                                      {'kind': 'vlq', 'n': n})
+                        break
+                    back = dec(v)        # may strip bits in place
+                    if back != n:
+                        acc.violation('vlq-helper/decode',
+                                      f'decode_variable_int(encode({n})) = '
+                                      f'{back}', {'kind': 'vlq', 'n': n})
+                        break
+                    try:
+                        v.append(0x99)   # the result is the caller's
+                    except AttributeError:
+                        pass
+                if n <= 20000:
+                    check_valid(mido, 'text', {'text': 'q' * n}, acc,
+                                via_file=True)
         acc.sample({'type': 'key_signature', 'key': 'F#m'}, cap=1)
     elif kind == 'tempo':
         vals = {0, 1, 255, 256, 65535, 65536, 500000, 16777214, 16777215}
